@@ -213,6 +213,8 @@ structure Walk where
   /-- `ifm_shapes` (`none` = the Python variable is still None) -/
   ifmShapes : Option (List Shape) := none
   err : Option String := none
+  /-- ghost: the model ran out of fuel (never happens: `Lemmas/PassPackingFuel`) -/
+  fuelOut : Bool := false
   deriving Repr
 
 def Walk.ops (w : Walk) : List Nat := w.acc.map (·.op)
@@ -286,7 +288,7 @@ def walkStep (R : Rules) (G : Graph) (w : Walk) : Walk :=
         | some t => { w with inputSet := setInsert w.inputSet t }
 
 def walkRun (R : Rules) (G : Graph) : Nat → Walk → Walk
-  | 0, w => if w.queue.isEmpty then w else w.fail "fuel"
+  | 0, w => if w.queue.isEmpty then w else { w.fail "fuel" with fuelOut := true }
   | n + 1, w => if w.queue.isEmpty then w else walkRun R G n (walkStep R G w)
 
 /-- enough steps for any walk: every operator is accepted at most once and queues at most its inputs -/
@@ -543,6 +545,8 @@ structure Dfs where
   passes : List Pass := []
   startup : List Nat := []
   err : Option String := none
+  /-- ghost: the model ran out of fuel -/
+  fuelOut : Bool := false
   deriving Repr
 
 def Dfs.fail (d : Dfs) (msg : String) : Dfs := { d with stack := [], err := some msg }
@@ -581,11 +585,13 @@ def dfsStep (R : Rules) (G : Graph) (d : Dfs) : Dfs :=
     else d
 
 def dfsRun (R : Rules) (G : Graph) : Nat → Dfs → Dfs
-  | 0, d => if d.stack.isEmpty then d else d.fail "fuel"
+  | 0, d => if d.stack.isEmpty then d else { d.fail "fuel" with fuelOut := true }
   | n + 1, d => if d.stack.isEmpty then d else dfsRun R G n (dfsStep R G d)
 
+/-- enough steps for any traversal that does not trip an assertion: a tensor is visited at most once per consumer, an operator at
+    most once per output -/
 def dfsFuel (G : Graph) : Nat :=
-  (G.tensors.map fun t => t.consumers.length + t.ops.length).sum + G.outputs.length + 1
+  (G.tensors.map fun t => t.consumers.length).sum + (G.ops.map fun o => o.outputs.length).sum + 1
 
 /-- the first traversal: from the graph outputs -/
 def dfsMain (R : Rules) (G : Graph) : Dfs := dfsRun R G (dfsFuel G) { stack := G.outputs.map Task.vt }
@@ -697,19 +703,20 @@ def moveAll (G : Graph) (ps : List Pass) : Nat → List Nat → Except String (L
     | .ok lst' => moveAll G ps i lst'
 
 /-- the final order as indices into the depth-first list -/
-def reorderIdx (G : Graph) (ps : List Pass) : Except String (List Nat) := do
-  if ps.isEmpty then return []
-  let startupIdx ← match ps.findIdx? (·.isStartup) with
-    | some i => pure i
-    | none => throw "NameError: startup_ps"
-  let tops ← ps.mapM (goesTop G)
-  let keys ← ps.mapM fun p => do let o ← p.op0 G; pure o.opIndex
-  let idxs := (List.range ps.length).filter (· != startupIdx)
-  let top := startupIdx :: idxs.filter fun i => tops.getD i false
-  let rest := idxs.filter fun i => !tops.getD i false
-  let top := sortByKey (fun i => keys.getD i (-1)) top
-  let rest ← moveAll G ps rest.length rest
-  pure (top ++ rest)
+def reorderIdx (G : Graph) (ps : List Pass) : Except String (List Nat) :=
+  if ps.isEmpty then .ok []
+  else match ps.findIdx? (·.isStartup) with
+    | none => .error "NameError: startup_ps"
+    | some startupIdx =>
+      match ps.mapM (goesTop G), ps.mapM (fun p => (p.op0 G).map (·.opIndex)) with
+      | .error e, _ => .error e
+      | _, .error e => .error e
+      | .ok tops, .ok keys =>
+        let idxs := (List.range ps.length).filter (· != startupIdx)
+        let top := sortByKey (fun i => keys.getD i (-1)) (startupIdx :: idxs.filter fun i => tops.getD i false)
+        match moveAll G ps (idxs.filter fun i => !tops.getD i false).length (idxs.filter fun i => !tops.getD i false) with
+        | .error e => .error e
+        | .ok rest => .ok (top ++ rest)
 
 /-- `Subgraph.build_pass_links`: the assertions only, as the list of those that fail. `order` = final order (indices into `ps`).
     `op.scheduled_pass` is the pass built last that contains the operator (the depth-first list has the newest pass first). -/
@@ -729,10 +736,15 @@ def passLinks (G : Graph) (ps : List Pass) (order : List Nat) : Except String Un
   | e :: _ => .error e
 
 /-- `pack_into_passes` for one subgraph: the final pass list -/
-def packIntoPasses (R : Rules) (G : Graph) : Except String (List Pass) := do
-  let ps ← packDfs R G
-  let order ← reorderIdx G ps
-  passLinks G ps order
-  pure (order.map fun i => ps.getD i default)
+def packIntoPasses (R : Rules) (G : Graph) : Except String (List Pass) :=
+  match packDfs R G with
+  | .error e => .error e
+  | .ok ps =>
+    match reorderIdx G ps with
+    | .error e => .error e
+    | .ok order =>
+      match passLinks G ps order with
+      | .error e => .error e
+      | .ok _ => .ok (order.map fun i => ps.getD i default)
 
 end VelaVerif.PassPacking
